@@ -27,11 +27,14 @@ package data_model
 import (
 	"fmt"
 	"math"
+	"reflect"
 	"sort"
 	"strings"
 	"sync"
 	"testing"
+	"unsafe"
 
+	"github.com/hrissan/tdigest"
 	"pgregory.net/rand"
 
 	"github.com/VKCOM/statshouse/internal/verif/mc"
@@ -246,16 +249,231 @@ func (h *c07Hook) Uint64() uint64 { return 0 }
 
 // ---------- row copies and observation ----------
 
+// c07Clone is a faithful deep copy of a row: EVERY field of MultiItem is copied, named or not (a copy that lists the
+// fields it knows silently resets any other per-row state the row carries between calls - lookup memos, cursors,
+// caches - and the exploration then never sees what that state does to later events). Everything the row owns
+// (structs, maps, slices, pointers to types of this package and of tdigest) is duplicated; pointer aliasing inside the
+// row is preserved: two pointers to the same sub-row, a pointer to a value of Top, a pointer into the row itself
+// (&row.Tail) or into the middle of a value point, in the copy, to the corresponding place of the copy. Pointers to
+// types of other packages (MetricMeta) are descriptors the row does not own and stay shared.
 func c07Clone(it *MultiItem) *MultiItem {
-	c := &MultiItem{Key: it.Key, Tail: it.Tail, sampleFactorLog2: it.sampleFactorLog2, SF: it.SF, MetricMeta: it.MetricMeta}
-	if it.Top != nil {
-		c.Top = make(map[TagUnion]*MultiValue, len(it.Top))
-		for k, v := range it.Top {
-			vv := *v
-			c.Top[k] = &vv
+	return (*MultiItem)(c07DeepCopy(unsafe.Pointer(it), reflect.TypeOf(*it)))
+}
+
+func c07DeepCopy(src unsafe.Pointer, t reflect.Type) unsafe.Pointer {
+	c := reflect.New(t).UnsafePointer()
+	cl := c07Cloner{}
+	cl.ranges = append(cl.ranges, c07Range{old: uintptr(src), size: t.Size(), new: c})
+	cl.copyInto(c, src, t)
+	// a pointer into the middle of an allocation that was copied only later was given a separate copy: redirect it
+	for _, s := range cl.slots {
+		if np := cl.translate(s.old); np != nil && np != *s.dst {
+			*s.dst = np
 		}
 	}
 	return c
+}
+
+// c07CloneProbe / c07CloneSelfTest: the copy procedure is part of the trusted base of this check, so it is tested on a
+// row-like struct with every kind of private state it claims to preserve (unexported scalar, pointer to a map value,
+// pointer to the embedded tail, pointer into the middle of a map value declared BEFORE the map, slice, shared foreign
+// descriptor) before the exploration starts.
+type c07CloneProbe struct {
+	mid    *ItemValue // into the middle of *top["x"], seen before the map
+	top    map[TagUnion]*MultiValue
+	tail   MultiValue
+	n      int
+	last   *MultiValue
+	toTail *MultiValue
+	tags   []TagUnion
+	meta   *testing.T
+}
+
+func c07CloneSelfTest(t *testing.T) {
+	x, y := &MultiValue{}, &MultiValue{}
+	x.Value.counter = 3
+	y.HLL.Insert(17)
+	p := &c07CloneProbe{top: map[TagUnion]*MultiValue{{S: "x"}: x, {I: 5}: y}, n: 42, last: x, tags: []TagUnion{{S: "q"}}, meta: t}
+	p.mid, p.toTail = &x.Value, &p.tail
+	c := (*c07CloneProbe)(c07DeepCopy(unsafe.Pointer(p), reflect.TypeOf(*p)))
+	cx, cy := c.top[TagUnion{S: "x"}], c.top[TagUnion{I: 5}]
+	switch {
+	case c == p || cx == nil || cy == nil || cx == x || cy == y || len(c.top) != 2:
+		t.Fatal("C07 harness: deep copy shares the row or its top values")
+	case c.n != 42 || cx.Value.Count() != 3 || cy.HLL.ItemsCount() != 1 || len(c.tags) != 1 || c.tags[0].S != "q" || &c.tags[0] == &p.tags[0]:
+		t.Fatal("C07 harness: deep copy lost a field")
+	case c.last != cx || c.toTail != &c.tail || c.mid != &cx.Value || c.meta != t:
+		t.Fatal("C07 harness: deep copy does not preserve pointer aliasing inside the row")
+	}
+	cy.HLL.Insert(18)
+	cx.Value.counter++
+	if y.HLL.ItemsCount() != 1 || x.Value.Count() != 3 {
+		t.Fatal("C07 harness: deep copy shares storage with the original")
+	}
+}
+
+type c07Range struct {
+	old  uintptr
+	size uintptr
+	new  unsafe.Pointer
+}
+
+type c07Slot struct {
+	dst *unsafe.Pointer
+	old uintptr
+}
+
+type c07Cloner struct {
+	ranges []c07Range
+	slots  []c07Slot
+	maps   map[unsafe.Pointer]reflect.Value
+}
+
+var c07HasPtrCache sync.Map // reflect.Type -> bool
+var c07OwnPkgs = map[string]bool{reflect.TypeOf(MultiItem{}).PkgPath(): true, reflect.TypeOf(tdigest.TDigest{}).PkgPath(): true}
+
+// c07HasPtr: does a value of type t contain anything that must be duplicated (pointer, map, slice)? Strings are
+// immutable, interfaces/funcs/channels are shared.
+func c07HasPtr(t reflect.Type) bool {
+	if v, ok := c07HasPtrCache.Load(t); ok {
+		return v.(bool)
+	}
+	r := false
+	switch t.Kind() {
+	case reflect.Ptr, reflect.Map, reflect.Slice:
+		r = true
+	case reflect.Array:
+		r = t.Len() > 0 && c07HasPtr(t.Elem())
+	case reflect.Struct:
+		for i := 0; i < t.NumField(); i++ {
+			if c07HasPtr(t.Field(i).Type) {
+				r = true
+				break
+			}
+		}
+	}
+	c07HasPtrCache.Store(t, r)
+	return r
+}
+
+type c07Field struct {
+	off uintptr
+	typ reflect.Type
+}
+
+var c07PtrFieldsCache sync.Map // reflect.Type -> []c07Field
+
+func c07PtrFields(t reflect.Type) []c07Field {
+	if v, ok := c07PtrFieldsCache.Load(t); ok {
+		return v.([]c07Field)
+	}
+	var fs []c07Field
+	for i := 0; i < t.NumField(); i++ {
+		if f := t.Field(i); f.Type.Size() != 0 && c07HasPtr(f.Type) {
+			fs = append(fs, c07Field{off: f.Offset, typ: f.Type})
+		}
+	}
+	c07PtrFieldsCache.Store(t, fs)
+	return fs
+}
+
+// translate maps an address inside an allocation that was copied to the same place of the copy (outermost allocation).
+func (cl *c07Cloner) translate(p uintptr) unsafe.Pointer {
+	var best *c07Range
+	for i := range cl.ranges {
+		r := &cl.ranges[i]
+		if p >= r.old && p < r.old+r.size && (best == nil || r.size > best.size) {
+			best = r
+		}
+	}
+	if best == nil {
+		return nil
+	}
+	return unsafe.Add(best.new, p-best.old)
+}
+
+func (cl *c07Cloner) copyInto(dst, src unsafe.Pointer, t reflect.Type) {
+	if t.Size() == 0 {
+		return
+	}
+	if !c07HasPtr(t) {
+		reflect.NewAt(t, dst).Elem().Set(reflect.NewAt(t, src).Elem())
+		return
+	}
+	switch t.Kind() {
+	case reflect.Struct:
+		// everything at once (all fields, whatever they are called), then the parts that have to be duplicated
+		reflect.NewAt(t, dst).Elem().Set(reflect.NewAt(t, src).Elem())
+		for _, f := range c07PtrFields(t) {
+			cl.copyInto(unsafe.Add(dst, f.off), unsafe.Add(src, f.off), f.typ)
+		}
+	case reflect.Array:
+		es := t.Elem().Size()
+		for i := 0; i < t.Len(); i++ {
+			cl.copyInto(unsafe.Add(dst, uintptr(i)*es), unsafe.Add(src, uintptr(i)*es), t.Elem())
+		}
+	case reflect.Ptr:
+		p := *(*unsafe.Pointer)(src)
+		et := t.Elem()
+		if p == nil || (et.PkgPath() != "" && !c07OwnPkgs[et.PkgPath()]) || et.Size() == 0 {
+			*(*unsafe.Pointer)(dst) = p // nil, or a descriptor the row does not own: shared
+			return
+		}
+		cl.slots = append(cl.slots, c07Slot{dst: (*unsafe.Pointer)(dst), old: uintptr(p)})
+		if np := cl.translate(uintptr(p)); np != nil {
+			*(*unsafe.Pointer)(dst) = np
+			return
+		}
+		nv := reflect.New(et)
+		np := nv.UnsafePointer()
+		cl.ranges = append(cl.ranges, c07Range{old: uintptr(p), size: et.Size(), new: np})
+		*(*unsafe.Pointer)(dst) = np
+		cl.copyInto(np, p, et)
+	case reflect.Map:
+		sv := reflect.NewAt(t, src).Elem()
+		dv := reflect.NewAt(t, dst).Elem()
+		if sv.IsNil() {
+			dv.Set(sv)
+			return
+		}
+		if m, ok := cl.maps[sv.UnsafePointer()]; ok {
+			dv.Set(m)
+			return
+		}
+		m := reflect.MakeMapWithSize(t, sv.Len())
+		if cl.maps == nil {
+			cl.maps = map[unsafe.Pointer]reflect.Value{}
+		}
+		cl.maps[sv.UnsafePointer()] = m
+		dv.Set(m)
+		vt := t.Elem()
+		for it := sv.MapRange(); it.Next(); {
+			so := reflect.New(vt)
+			so.Elem().Set(it.Value())
+			do := reflect.New(vt)
+			cl.copyInto(do.UnsafePointer(), so.UnsafePointer(), vt)
+			m.SetMapIndex(it.Key(), do.Elem()) // keys are values (TagUnion): shared strings are immutable
+		}
+	case reflect.Slice:
+		sv := reflect.NewAt(t, src).Elem()
+		dv := reflect.NewAt(t, dst).Elem()
+		if sv.IsNil() {
+			dv.Set(sv)
+			return
+		}
+		ns := reflect.MakeSlice(t, sv.Len(), sv.Cap())
+		et := t.Elem()
+		if !c07HasPtr(et) {
+			reflect.Copy(ns, sv)
+		} else {
+			for i := 0; i < sv.Len(); i++ {
+				cl.copyInto(ns.Index(i).Addr().UnsafePointer(), sv.Index(i).Addr().UnsafePointer(), et)
+			}
+		}
+		dv.Set(ns)
+	default:
+		reflect.NewAt(t, dst).Elem().Set(reflect.NewAt(t, src).Elem())
+	}
 }
 
 type c07Totals struct {
@@ -460,27 +678,31 @@ func c07Body(x *mc.Exec, maxLen int, kinds []int, caps []int, maxFreeLog2 int, s
 		if ev.First {
 			tag = c07KeyFirst[ev.Key]
 		}
-		// the step: real MapStringTop on a deep copy, redone with another guessed iteration order if the evictions
-		// realised are not the planned ones
+		// the step: real MapStringTop on THE row object, which lives through the whole history as in production, so
+		// that whatever private state the row carries from call to call takes part. A faithful deep copy (every
+		// field, aliasing preserved) is put aside first; only if the evictions realised are not the planned ones
+		// (wrong iteration-order guess) the step is redone on a copy of that copy, which then is the row from there on
 		hook.beginStep()
-		var next *MultiItem
+		backup := c07Clone(item)
 		var mv *MultiValue
 		for attempt := 0; ; attempt++ {
 			if attempt > 5000 {
 				panic(mc.Divergence{Msg: "C07 harness: no iteration-order guess realised the planned evictions for " + c07Describe(evs)})
 			}
-			next = c07Clone(item)
-			hook.beginAttempt(next, attempt)
+			if attempt > 0 {
+				item = c07Clone(backup)
+			}
+			hook.beginAttempt(item, attempt)
 			if useBytes {
 				// the caller owns the bytes (receivers and the aggregator parse the next packet into the
 				// same buffer): hand them over in a scratch buffer that is overwritten after the call
 				scratch := append(c07Scratch[:0], tag.S...)
-				mv = next.MapStringTopBytes(rng, capacity, TagUnionBytes{S: scratch, I: tag.I}, kd.Count)
+				mv = item.MapStringTopBytes(rng, capacity, TagUnionBytes{S: scratch, I: tag.I}, kd.Count)
 				for i := range scratch {
 					scratch[i] = 0xEE
 				}
 			} else {
-				mv = next.MapStringTop(rng, capacity, tag, kd.Count)
+				mv = item.MapStringTop(rng, capacity, tag, kd.Count)
 			}
 			hook.checkPass()
 			if !hook.bad {
@@ -488,7 +710,6 @@ func c07Body(x *mc.Exec, maxLen int, kinds []int, caps []int, maxFreeLog2 int, s
 			}
 			retries++
 		}
-		item = next
 		if kd.HasValue {
 			mv.AddValueCounterHost(rng, kd.Value, kd.Count, TagUnion{})
 			want.Sum += kd.Value * kd.Count
@@ -576,6 +797,7 @@ func c07Body(x *mc.Exec, maxLen int, kinds []int, caps []int, maxFreeLog2 int, s
 }
 
 func TestVerifC07(t *testing.T) {
+	c07CloneSelfTest(t)
 	rep := mc.NewReport("C07")
 	rep.Rule = "every history of 1..L events; an event = top value (none | a value already used | the next new one of 4; new values appear in canonical order, the code treats values symmetrically; mapped values are referenced both as {id} and {id,string}) x kind (count 1 | count 3 with value -2 | count 3 | count 1 with value 5 | fractional: count 0.5 with value 5 | count 2.25 | count 2.75, so that distinct top values get weights closer than 1.0 on both sides of every cut); x capacity x MapStringTop/MapStringTopBytes; every admit/reject outcome of every admission draw and every keep/evict combination of every resample pass (per retained value) up to sample factor 2^K, pinned to evict beyond; then FinishStringTop(n) for n in {-1,0,1,2,3} on the final row, for every cut that splits the top values additionally on copies filled in every insertion order x 6 runs (map iteration order inside FinishStringTop), weights compared exactly as float64. Executions = histories x draw outcomes, all distinct. Non-trivial = execution in which capacity pressure caused at least one resample pass or admission draw"
 	st := &c07Stats{states: map[uint64]struct{}{}, outcomes: map[uint64]struct{}{}, bySig: map[string]int64{}, admitted: map[string]map[string]bool{}}
